@@ -7,6 +7,10 @@ hook_commits = subprocess.run(['git', '-C', '/repo', 'log', '--format=%h %s', '-
 
 # id -> (category, text, level_note, technique, design_ref)
 CLAIMED = {
+ "C16": ("proof",
+  "Contract proof over the real SSA of the JWT signer: (1) jwtSigner.load is atomic with respect to failure - whenever it returns an error the active JWK, the signing key and the published key set are exactly what they were (a rejected reload changes nothing); after success the active JWK and the signing key come from one and the same key store entry, the published set holds the JWK of every entry of the store in order (quantified loop invariant over the ghost log of Entry.JWK calls), and without a configured key id the active entry is the first one; (2) Entry.JWK names the entry's key id, carries pubOf(private key) and the certificate chain only; Keys() returns the published set unchanged; (3) jwtSigner.Sign builds the go-jose signer from the algorithm, key and key id of one signer state (cut-point assertions at NewSigner/WithHeader) and hands the token builder a claims map whose sub, iss, iat = nbf = issue time and exp = issue time + ttl are set after, and therefore regardless of, the custom claims (cut-point assertions at Builder.Claims, map theory). All key stores, claims, subjects and TTLs; unbounded.",
+  "Not modelled: the RWMutex - that Sign reads algorithm/key/key id under one read lock and load publishes under one write lock is visible in the contracts only as 'one state' (old(s.jwk), old(s.key)); the interleaving clause of the property rests on that lock discipline, which is not checked (no concurrency in the technique). Membership of the active JWK in the published set is proved for the no-key-id case directly and for a configured key id only up to KeyStore.GetKey returning an entry of the store (contract: pure; the membership itself is not stated). Trusted: go-jose builders effect-free, koanf maps.Merge havocs the heap (claims set afterwards), frame specs of keystore.NewKeyStoreFromPEMFile and pkix.ValidateCertificate (trusted in-repo, reasons in specs/keystore_frames.spec), time spec. The management handler that serves Keys() and the jwtFinalizer's template rendering are not under contract.",
+  "contract-based deductive verification (govc VC generation over go/ssa, z3/cvc5)", "DESIGN.md §6 C16"),
  "C18": ("proof",
   "Contract proof over the real SSA of the reaction of the file system, HTTP endpoint and cloud blob providers to one source event, with ghost logs of the state-map operations (sync.Map Load/Store/Delete), the parser calls and the processor calls (OnCreated/OnUpdated/OnDeleted): a file/endpoint whose new content does not parse leaves state and processor untouched (previous version stays active); empty, vanished or failing sources are unloaded exactly when they were loaded; unknown content is created once, changed content updated once, unchanged content triggers nothing; the new hash is remembered exactly when the processor accepted the change; a received but unparsable HTTP response is classified as internal error (unless empty); every rule set fetched from a bucket is examined, OnCreated only for new ones, OnUpdated only for known ones with a different hash. All events and fetch outcomes, unbounded.",
   "The convergence over whole histories is the induction over these per-event transition contracts plus sync.Map's documented semantics (pen and paper, DESIGN.md); the Kubernetes provider (informer callbacks) and the watcher goroutines/schedulers that deliver the events are not under contract. Trusted: sync.Map/bytes.Equal/slices.Contains/fsnotify.Event.Has specs, slicex.Subtract (trusted in-repo, reads only), errors.Is axioms, errorchain spec.",
